@@ -57,9 +57,9 @@ theorem C13_flag_permanent {s s' : State} {ev : Ev} {o o' : Oracle} {out : Out} 
   by_cases hev : ev = .worker
   · subst hev
     have hw : workerStep s o = .ok (s', out, o') := h
-    obtain ⟨-, cmd, hd, q, -, hpost⟩ := workerStep_spec hw
+    obtain ⟨-, cmd, hd, q, -, hpost⟩ := workerStep_qspec hw
     rw [hpost.shutting]; exact hs
-  · exact (mono_step hev h).shutting hs
+  · exact (qmono_step hev h).shutting hs
 
 /-- `shutdown()` sets the flag first: whatever it returns (even when it parks at a send) the flag is set;
     a second `shutdown()` returns at once and changes nothing. -/
@@ -69,7 +69,7 @@ theorem C13_shutdown_sets_flag (s : State) (c : Nat) :
   · unfold clientShutdown
     split
     · rename_i h; exact h
-    · exact (mono_shutdownSendCmd { s with shutting := true } c).shutting rfl
+    · exact (qmono_shutdownSendCmd { s with shutting := true } c).shutting rfl
   · intro hs
     unfold clientShutdown
     rw [if_pos hs]
@@ -83,7 +83,7 @@ theorem C13_draining_answers_everything {s s' : State} {o o' : Oracle} {out : Ou
     out = .worked "Drain" .shuttingDown none [] [] ∧ s'.worker = .draining ∧
     ∃ cmd hdl, s.queue = (cmd, hdl) :: s'.queue ∧ s'.acks = setAck s.acks hdl .shuttingDown ∧
       ∀ i, hdl = some i → i < s.acks.length → s'.acks[i]? = some .shuttingDown := by
-  obtain ⟨-, cmd, hdl, q, hq, hpost⟩ := workerStep_spec h
+  obtain ⟨-, cmd, hdl, q, hq, hpost⟩ := workerStep_qspec h
   rcases hpost.outcome with ⟨p, -, hr, -⟩ | ⟨kind, st, ie, pp, ev, hout, -, hq', ha, hmode⟩
   · rw [hd] at hr; cases hr
   · rcases hmode with ⟨-, h2, rfl, rfl, rfl, rfl, rfl⟩ | ⟨hr, -⟩ | ⟨hr, -⟩
@@ -160,12 +160,12 @@ theorem C13_shutdown_returns_or_parks {s s' : State} {c : Nat} {out : Out} (h : 
   split at h
   · cases h
     exact ⟨Or.inl rfl, fun e => by cases e⟩
-  · rcases shutdownSendCmd_spec { s with shutting := true } c with ⟨-, -, e⟩ | ⟨-, s1, hp, -, -, -, -, e⟩
+  · rcases shutdownSendCmd_qspec { s with shutting := true } c with ⟨-, -, e⟩ | ⟨-, s1, hp, -, -, -, -, e⟩
     · rw [e] at h
       cases h
       exact ⟨Or.inr rfl, fun _ => Or.inl (AMap.get?_set_same _ _ _)⟩
     · rw [e] at h
-      rcases shutdownSendBuf_spec s1 c with ⟨e2, -, -⟩ | ⟨-, -, e2⟩
+      rcases shutdownSendBuf_qspec s1 c with ⟨e2, -, -⟩ | ⟨-, -, e2⟩
       · have : out = .none := by rw [← e2, h]
         subst this
         exact ⟨Or.inl rfl, fun e => by cases e⟩
@@ -180,7 +180,7 @@ theorem C13_shutdown_cmd_resumable {s s' : State} {c : Nat} {o o' : Oracle} {out
     (hp : s.pend.get? c = some .shutdownCmd) (h : workerStep s o = .ok (s', out, o')) :
     (s'.worker = .dead ∨ s'.queue.length < s'.cfg.cmdCap) ∧ s'.pend.get? c = some .shutdownCmd ∧
     ∃ r, resume s' c = .ok r := by
-  obtain ⟨-, cmd, hd, q, hq, hpost⟩ := workerStep_spec h
+  obtain ⟨-, cmd, hd, q, hq, hpost⟩ := workerStep_qspec h
   have hp' : s'.pend.get? c = some .shutdownCmd := by rw [hpost.pend]; exact hp
   have hroom : s'.worker = .dead ∨ s'.queue.length < s'.cfg.cmdCap := by
     rcases hpost.outcome with ⟨p, -, -, -, hdead, -⟩ | ⟨kind, st, ie, pp, ev, -, -, hq', -⟩
@@ -191,7 +191,7 @@ theorem C13_shutdown_cmd_resumable {s s' : State} {c : Nat} {o o' : Oracle} {out
       simp only [List.length_cons] at this
       rw [hq', hpost.cfg]
       omega
-  refine ⟨hroom, hp', _, resume_shutdownCmd hp' ?_⟩
+  refine ⟨hroom, hp', _, qresume_shutdownCmd hp' ?_⟩
   intro ⟨h1, h2⟩
   rcases hroom with h3 | h3
   · exact h1 h3
@@ -201,18 +201,18 @@ theorem C13_shutdown_cmd_resumable {s s' : State} {c : Nat} {o o' : Oracle} {out
 theorem C13_shutdown_cmd_resume {s : State} {c : Nat} (hp : s.pend.get? c = some .shutdownCmd)
     (he : s.worker = .dead ∨ s.queue.length < s.cfg.cmdCap) :
     ∃ s' out, resume s c = .ok (s', out) ∧
-      ((out = .none ∧ Finished s') ∨ (out = .parked ∧ s'.pend.get? c = some .shutdownBuf)) := by
+      ((out = .none ∧ ShutFinished s') ∨ (out = .parked ∧ s'.pend.get? c = some .shutdownBuf)) := by
   have hen : ¬ (s.worker ≠ .dead ∧ s.queue.length ≥ s.cfg.cmdCap) := by
     intro ⟨h1, h2⟩
     rcases he with h3 | h3
     · exact h1 h3
     · omega
   refine ⟨(shutdownSendCmd { s with pend := s.pend.del c } c).1,
-    (shutdownSendCmd { s with pend := s.pend.del c } c).2, resume_shutdownCmd hp hen, ?_⟩
-  rcases shutdownSendCmd_spec { s with pend := s.pend.del c } c with ⟨h1, h2, -⟩ | ⟨-, s1, -, -, -, -, -, e⟩
+    (shutdownSendCmd { s with pend := s.pend.del c } c).2, qresume_shutdownCmd hp hen, ?_⟩
+  rcases shutdownSendCmd_qspec { s with pend := s.pend.del c } c with ⟨h1, h2, -⟩ | ⟨-, s1, -, -, -, -, -, e⟩
   · exact absurd ⟨h1, h2⟩ hen
   · rw [e]
-    rcases shutdownSendBuf_spec s1 c with ⟨e2, hf, -⟩ | ⟨-, -, e2⟩
+    rcases shutdownSendBuf_qspec s1 c with ⟨e2, hf, -⟩ | ⟨-, -, e2⟩
     · exact Or.inl ⟨e2, hf⟩
     · rw [e2]
       exact Or.inr ⟨rfl, AMap.get?_set_same _ _ _⟩
@@ -223,7 +223,7 @@ theorem C13_shutdown_buf_resumable {s s' : State} {c : Nat} {o o' : Oracle} {out
     (hp : s.pend.get? c = some .shutdownBuf) (h : consumerStep s o = .ok (s', out, o')) :
     (s'.consumerAlive = false ∨ s'.bufq.length < s'.cfg.bufChanCap) ∧ s'.pend.get? c = some .shutdownBuf ∧
     ∃ r, resume s' c = .ok r := by
-  obtain ⟨-, -, -, -, hcfg, -, hpend, x, q, hq, hb⟩ := consumerStep_spec h
+  obtain ⟨-, -, -, -, hcfg, -, hpend, x, q, hq, hb⟩ := consumerStep_qspec h
   have hp' : s'.pend.get? c = some .shutdownBuf := by rw [hpend]; exact hp
   have hroom : s'.consumerAlive = false ∨ s'.bufq.length < s'.cfg.bufChanCap := by
     rcases hb with ⟨hb, -⟩ | ⟨-, hdead⟩
@@ -234,7 +234,7 @@ theorem C13_shutdown_buf_resumable {s s' : State} {c : Nat} {o o' : Oracle} {out
       rw [hb, hcfg]
       omega
     · exact Or.inl hdead
-  refine ⟨hroom, hp', _, resume_shutdownBuf hp' ?_⟩
+  refine ⟨hroom, hp', _, qresume_shutdownBuf hp' ?_⟩
   intro ⟨h1, h2⟩
   rcases hroom with h3 | h3
   · rw [h1] at h3; cases h3
@@ -252,8 +252,8 @@ theorem C13_shutdown_buf_resume {s : State} {c : Nat} (hp : s.pend.get? c = some
     rcases he with h3 | h3
     · rw [h1] at h3; cases h3
     · omega
-  have hr := resume_shutdownBuf hp hen
-  rcases shutdownSendBuf_spec { s with pend := s.pend.del c } c with ⟨e2, hf, hpd⟩ | ⟨h1, h2, -⟩
+  have hr := qresume_shutdownBuf hp hen
+  rcases shutdownSendBuf_qspec { s with pend := s.pend.del c } c with ⟨e2, hf, hpd⟩ | ⟨h1, h2, -⟩
   · refine ⟨(shutdownSendBuf { s with pend := s.pend.del c } c).1, ?_, hf.1, hf.2.1, hf.2.2.1, hf.2.2.2.1,
       hf.2.2.2.2.1, hf.2.2.2.2.2, ?_⟩
     · rw [hr, ← e2]
@@ -264,28 +264,28 @@ theorem C13_shutdown_buf_resume {s : State} {c : Nat} (hp : s.pend.get? c = some
 
 /-- Capacity 1.  A put is queued; `shutdown()` sets the flag and parks at the command queue. -/
 example :
-    (runEvs (State.init (cfgCap 1) 0 []) [.putW 0 1 10 1, .shutdown 7]).map (fun r => (r.1.qview, r.2)) =
+    (qrun (State.init (qcfg 1) 0 []) [.putW 0 1 10 1, .shutdown 7]).map (fun r => (r.1.qview, r.2)) =
     some (⟨[(.put 1 1 1 1 10, some 0)], [.pending], .running, true, [(7, .shutdownCmd)]⟩,
       [.ack 0 .pending, .parked]) := by decide
 
 /-- `resume` before a worker step is not an event the implementation can produce; after ONE worker step it is,
     and `shutdown()` returns: `Shutdown` is queued, the store is cleared. -/
 example :
-    (runEvs (State.init (cfgCap 1) 0 []) [.putW 0 1 10 1, .shutdown 7, .resume 7]).isNone = true := by decide
+    (qrun (State.init (qcfg 1) 0 []) [.putW 0 1 10 1, .shutdown 7, .resume 7]).isNone = true := by decide
 example :
-    (runEvs (State.init (cfgCap 1) 0 []) [.putW 0 1 10 1, .shutdown 7, .worker, .resume 7]).map
+    (qrun (State.init (qcfg 1) 0 []) [.putW 0 1 10 1, .shutdown 7, .worker, .resume 7]).map
       (fun r => (r.1.qview, r.2)) =
     some (⟨[(.shutdown, none)], [.accepted], .running, true, []⟩,
       [.ack 0 .pending, .parked, .worked "Put" .accepted none [] [], .none]) := by decide
 example :
-    (runEvs (State.init (cfgCap 1) 0 []) [.putW 0 1 10 1, .shutdown 7, .worker, .resume 7]).map
+    (qrun (State.init (qcfg 1) 0 []) [.putW 0 1 10 1, .shutdown 7, .worker, .resume 7]).map
       (fun r => (r.1.store, r.1.consumerKeep, r.1.sweeperKeep, r.1.bufq)) =
     some ([], false, false, [.shutdown]) := by decide
 
 /-- Afterwards: a put returns `Err`, a read returns nothing, a second `shutdown()` returns at once, the worker
     executes `Shutdown` and drains. -/
 example :
-    (runEvs (State.init (cfgCap 1) 0 [])
+    (qrun (State.init (qcfg 1) 0 [])
       [.putW 0 1 10 1, .shutdown 7, .worker, .resume 7, .putW 1 2 20 1, .get 1, .shutdown 8, .worker]).map
       (fun r => (r.1.qview, r.2)) =
     some (⟨[], [.accepted], .draining, true, []⟩,
@@ -295,7 +295,7 @@ example :
 /-- A delete parked at the full queue while `shutdown()` runs is answered `ShuttingDown` by the draining
     worker: no acknowledgement stays pending. -/
 example :
-    (runEvs (State.init (cfgCap 1) 0 [])
+    (qrun (State.init (qcfg 1) 0 [])
       [.putW 0 1 10 1, .delete 1 1, .shutdown 7, .worker, .resume 7, .worker, .resume 1, .worker]).map
       (fun r => (r.1.qview, r.2)) =
     some (⟨[], [.accepted, .shuttingDown], .draining, true, []⟩,
@@ -305,31 +305,31 @@ example :
 
 /-- hypotheses of 4, 5, 5' satisfiable -/
 example :
-    (runEvs (State.init (cfgCap 1) 0 [])
+    (qrun (State.init (qcfg 1) 0 [])
       [.putW 0 1 10 1, .delete 1 1, .shutdown 7, .worker, .resume 7, .worker, .resume 1]).map
       (fun r => (r.1.worker, r.1.queue)) = some (.draining, [(.delete 1, some 1)]) := by decide
 
 /-- The second send.  Buffer channel of capacity 1, buffers of size 0: one read hit fills the channel;
     `shutdown()` queues `Shutdown` and parks at the buffer channel; ONE consumer step later `resume` completes it. -/
 example :
-    (runEvsO (State.init { cfgCap 1 with bufChanCap := 1, bufSize := 0 } 0 [])
+    (qrunO (State.init { qcfg 1 with bufChanCap := 1, bufSize := 0 } 0 [])
       [(.putW 0 1 10 1, {}), (.worker, {}), (.get 1, { pool := [0] }), (.shutdown 7, {})]).map
       (fun r => (r.1.qview, r.2, r.1.bufq)) =
     some (⟨[(.shutdown, none)], [.accepted], .running, true, [(7, .shutdownBuf)]⟩,
       [.ack 0 .pending, .worked "Put" .accepted none [] [], .value (some 10), .parked], [.full []]) := by decide
 example :
-    (runEvsO (State.init { cfgCap 1 with bufChanCap := 1, bufSize := 0 } 0 [])
+    (qrunO (State.init { qcfg 1 with bufChanCap := 1, bufSize := 0 } 0 [])
       [(.putW 0 1 10 1, {}), (.worker, {}), (.get 1, { pool := [0] }), (.shutdown 7, {}),
        (.resume 7, {})]).isNone = true := by decide
 example :
-    (runEvsO (State.init { cfgCap 1 with bufChanCap := 1, bufSize := 0 } 0 [])
+    (qrunO (State.init { qcfg 1 with bufChanCap := 1, bufSize := 0 } 0 [])
       [(.putW 0 1 10 1, {}), (.worker, {}), (.get 1, { pool := [0] }), (.shutdown 7, {}), (.consumer, {}),
        (.resume 7, {})]).map (fun r => (r.1.qview, r.2)) =
     some (⟨[(.shutdown, none)], [.accepted], .running, true, []⟩,
       [.ack 0 .pending, .worked "Put" .accepted none [] [], .value (some 10), .parked, .consumed, .none]) := by
   decide
 example :
-    (runEvsO (State.init { cfgCap 1 with bufChanCap := 1, bufSize := 0 } 0 [])
+    (qrunO (State.init { qcfg 1 with bufChanCap := 1, bufSize := 0 } 0 [])
       [(.putW 0 1 10 1, {}), (.worker, {}), (.get 1, { pool := [0] }), (.shutdown 7, {}), (.consumer, {}),
        (.resume 7, {})]).map (fun r => (r.1.bufq, r.1.store, r.1.consumerKeep, r.1.sweeperKeep)) =
     some ([.shutdown], [], false, false) := by decide
